@@ -57,6 +57,20 @@ def collect():
             if isinstance(fn, ast.FunctionDef):
                 defined.add(fn.name)
     edges = sorted((a, b) for a, b in edges if b in defined)      # calls of package functions only (by bare name)
+    # the part of solve() up to and including the input-error return: every call made there
+    sol = [n for n in ast.parse(open(os.path.join(core.REPO, "dfols", "solver.py")).read()).body
+           if isinstance(n, ast.FunctionDef) and n.name == "solve"][0]
+    prelude, found = [], False
+    for st in sol.body:
+        for c in ast.walk(st):
+            if isinstance(c, ast.Call):
+                prelude.append("objfun" if ast.unparse(c.func) in OBJ_NAMES else bare(c.func))
+        if isinstance(st, ast.If) and ast.unparse(st.test) == "exit_info is not None" and any(isinstance(b, ast.Return) for b in st.body):
+            found = True
+            break
+    if not found:
+        raise ValueError("solve(): no `if exit_info is not None: ... return` block found")
+    collect.prelude = sorted(set(prelude))
     return tries, edges, sorted(direct)
 
 
@@ -71,7 +85,9 @@ def regenerate(ctx=None):
              "/-- call graph by bare name: (function, package function it calls) -/",
              "def callEdges : List (String × String) := [\n%s]\n" % ",\n".join("  (%s, %s)" % (q(a), q(b)) for a, b in edges),
              "/-- the functions whose body calls the user's residual function (`objfun(...)` / `self.objfun(...)`) -/",
-             "def objfunCallers : List String := [%s]\n" % ", ".join(q(d) for d in direct)]
+             "def objfunCallers : List String := [%s]\n" % ", ".join(q(d) for d in direct),
+             "/-- every call made by `solve` up to and including its input-error return (bare / `ext:` names, as above) -/",
+             "def solvePreludeCalls : List String := [%s]\n" % ", ".join(q(d) for d in collect.prelude)]
         info = {"try_blocks": len(tries), "edges": len(edges), "objfun_callers": direct}
     except Exception as exc:
         if ctx is not None:
